@@ -514,23 +514,32 @@ PROPS = {
                         "read_dir order and rand::random eviction choices are oracle inputs observed on the implementation"],
     },
     "C13": {
-        "modules": ["XetProps.C13"],
+        "modules": ["XetProps.C13", "XetProps.C13Disk"],
         "theorems": [
             "Xet.Cache.C13_exact", "Xet.Cache.C13_commit_no_underflow", "Xet.Cache.C13_capacity", "Xet.Cache.C13_files_tracked",
             "Xet.Cache.C13_read_back_drops", "Xet.Cache.C13_prefix_weak", "Xet.Cache.C13_prefix_F10_witness",
+            "Xet.Cache.C13_disk_full_thm", "Xet.Cache.C13_disk_full_of_len", "Xet.Cache.C13_reachable_inv",
+            "Xet.Cache.C13_reopen_exact_thm", "Xet.Cache.C13_reopen_exact_len", "Xet.Cache.C13_reopen_exact_valid",
+            "Xet.Cache.C13_disk_full_false", "Xet.Cache.C13_reopen_exact_false", "Xet.Cache.C13_stale_entry_witness",
         ],
         "suites": ["cache_seq", "cache_conc"],
         "level_text": "Theorems over ALL interleavings (any number of threads, any oracle values, identical concurrent puts included) of the "
                       "post-fix step function: num_items = number of tracked entries and total_bytes = sum of their lengths in every reachable "
                       "state; every commit of an item <= capacity ends with total_bytes <= capacity; the state lock is never poisoned; at every "
                       "quiescent point every file at an item path is tracked. For the pre-fix step: item count exact, total_bytes never too small, "
-                      "plus the decide'd witness schedule where it is too large (F10). PARTIAL: exactness after re-open (C13_reopen_exact) and "
-                      "'totals = disk after read-back' (C13_disk_full) are kept as statements and covered by the suites only.",
+                      "plus the decide'd witness schedule where it is too large (F10). Totals = disk: at every quiescent point of every interleaving at which each tracked entry has its "
+                      "file, num_items = number of files and total_bytes = sum of their lengths (files < 2^64 bytes). Re-open with the same "
+                      "capacity, any read_dir order: counters exact, total_bytes <= capacity, no entry twice, every tracked entry has its file, "
+                      "every file <= capacity of a valid key is tracked. The two statements as first written in C13.lean are refuted in the model "
+                      "(2^64-byte put; 3-byte key: artefacts of the model's unbounded lists and arbitrary keys) and the stale-entry schedule (an "
+                      "entry shadowed by a covering entry cannot be read back) is a decided witness; re-open with another capacity or of a damaged "
+                      "directory is covered by the suites (partial).",
         "design_ref": "DESIGN.md section 4, C12/C13",
         "technique": "Lean 4 proof (invariants over the step-granular concurrent semantics) + differential correspondence (hook-driven schedules)",
         "rule": "see C12",
         "assumptions": ["no single item larger than the capacity (hypothesis of C13_capacity; the suites also generate larger items and then switch the capacity monitor off)",
-                        "Mutex / std::fs as in C12"],
+                        "Mutex / std::fs as in C12",
+                        "re-open theorems: keys as Rust's Key produces them (32-byte hash + UTF-8 prefix) for the 'every file is tracked' clause; file lengths < 2^64; case-sensitive file system (paths are compared exactly in the model's FS)"],
     },
     "C08": {
         "modules": ["XetProps.C08"],
